@@ -211,13 +211,13 @@ def cases(tier, seed):
         out.append((family, params, float(cost)))
 
     # 1. centred spherical
-    for k in range(14 if q else 70):
+    for k in range(14 if q else 196):
         # every run: each radial kind at least once (k < 9), four short-range solves (k = 0..3), then random kinds
         spec, opts, ar = _spherical_config(rng, kind=SPH_KINDS[k] if k < len(SPH_KINDS) else None, short_range=(k % 14 < 4))
         deg = _pick(rng, [6, 8, 10, 14] if q else [6, 8, 10, 14, 14, 18, 22])
         add("bvp-centred", {"k": k, "rad": spec, "opts": opts, "arange": list(ar), "degree": deg, "nterms": int(rng.integers(1, 4))}, 0.5 * (deg / 8.0) ** 2)
     # 2. off-centre
-    for k in range(4 if q else 30):
+    for k in range(4 if q else 60):
         heavy = (not q) and k % 5 == 4
         spec, opts = _aniso_config(rng, allow_origin_node=heavy)
         if heavy and opts.get("tol") is None:
@@ -226,7 +226,7 @@ def cases(tier, seed):
         cost = (30.0 if opts.get("tol") else 1.5) * (deg / 14.0) ** 2
         add("bvp-offcentre", {"k": k, "rad": spec, "opts": opts, "degree": deg, "nterms": int(rng.integers(1, 3)), "with_centred": bool(rng.integers(2))}, cost)
     # 3. explicit anisotropic components
-    for k in range(6 if q else 44):
+    for k in range(6 if q else 120):
         node = (q and k == 0) or ((not q) and k % 6 == 5)
         spec, opts = _aniso_config(rng, allow_origin_node=False)
         lmin = 1
@@ -248,10 +248,10 @@ def cases(tier, seed):
         add("bvp-aniso", {"k": k, "rad": spec, "opts": opts, "degree": deg, "lm": lms, "with_s": bool(rng.integers(2))}, cost)
     # 3b. (thorough, not required) anisotropic density with the DEFAULT options: documents how often the library fails to converge
     for k in range(0 if q else 8):
-        l = int(rng.integers(2, 5))
-        add("bvp-aniso-default-options", {"k": k, "rad": {"kind": "gl-becke", "n": 100, "rmin": 1e-5, "R": 1.5}, "opts": {"include_origin": True, "rlp": 1e6}, "degree": 10, "lm": [[l, int(rng.integers(-l, l + 1))]], "with_s": False}, 4.0)
+        l = 1 if k < 2 else int(rng.integers(2, 5))
+        add("bvp-aniso-default-options", {"k": k, "rad": {"kind": "gl-becke", "n": 100, "rmin": 1e-5, "R": 1.5}, "opts": {"include_origin": True, "rlp": 1e6}, "degree": 10, "lm": [[l, int(rng.integers(-l, l + 1))]], "with_s": False}, 150.0 if l == 1 else 4.0)
     # 4. molecules (Becke cells between H and a heavier atom are sharp: those need degree >= 22, see ASSUMPTIONS)
-    for k in range(3 if q else 18):
+    for k in range(3 if q else 36):
         spec, opts = _mol_config(rng)
         nat = 2 if (q and k < 2) else int(rng.integers(2, 4))
         mixed = (k % 3 == 2)
@@ -264,15 +264,17 @@ def cases(tier, seed):
             deg = 14 if q else _pick(rng, [14, 14, 18, 22])
         add("bvp-mol", {"k": k, "rad": spec, "opts": opts, "degree": deg, "atnums": atn}, 1.6 * nat * (deg / 14.0) ** 2)
     # 5. IVP (spherical, stable envelope)
-    for k in range(4 if q else 24):
+    for k in range(4 if q else 60):
         n = _pick(rng, [3000, 4000] if q else [3000, 4000, 5000, 6000])
         ode = _pick(rng, [None, None, {"method": "RK45"}, {"rtol": 1e-9, "atol": 1e-7}])
         add("ivp", {"k": k, "n": n, "degree": int(rng.integers(2, 9)), "nterms": int(rng.integers(1, 4)), "ode": ode}, 0.8 * n / 3000)
     # 6. linearity
-    for k in range(5 if q else 30):
+    for k in range(5 if q else 75):
         kind = ["centred", "aniso", "ivp", "centred", "aniso"][k % 5]
         if kind == "centred":
-            spec, opts, ar = _spherical_config(rng)
+            # k % 5 == 0: short radial range, where the l=0 boundary value (total charge, any sign) matters
+            short = k % 5 == 0
+            spec, opts, ar = _spherical_config(rng, kind=_pick(rng, ["gl-becke", "cc-becke", "simpson-becke", "trap-becke"]) if short else None, short_range=short)
             p = {"k": k, "solver": "bvp", "dens": "centred", "rad": spec, "opts": opts, "arange": list(ar), "degree": _pick(rng, [6, 8, 10])}
             cost = 1.5
         elif kind == "aniso":
@@ -284,7 +286,7 @@ def cases(tier, seed):
             cost = 2.5
         add("linearity", p, cost)
     # 7. Laplacian of the interpolated analytic potential
-    for k in range(5 if q else 30):
+    for k in range(5 if q else 75):
         if rng.integers(2):
             spec = {"kind": "trap-linfinite", "n": _pick(rng, [500, 600, 800]), "rmin": 1e-3, "rmax": _pick(rng, [12.0, 16.0])}
         else:
@@ -298,15 +300,15 @@ def cases(tier, seed):
         add("laplacian", {"k": k, "rad": spec, "degree": deg, "lm": lms, "nterms": int(rng.integers(1, 3))}, 1.0 + spec["n"] / 1000.0)
     # 8-10. robust solver
     zs = [1, 6, 7, 8, 17]
-    for k in range(4 if q else 20):
+    for k in range(4 if q else 48):
         mol = (k % 4 == 3)
         atn = [int(_pick(rng, [1, 1, 6, 8]))] if not mol else [int(_pick(rng, [1, 6])), 1]
         add("robust-route", {"k": k, "atnums": atn, "degree": _pick(rng, [8, 10]) if not mol else 14, "mol": mol}, 5.0 if mol else 1.5)
-    for k in range(6 if q else 30):
+    for k in range(6 if q else 60):
         mol = (k % 6 == 5)
         atn = [zs[k % 5]] if not mol else [zs[(k // 6) % 5], int(_pick(rng, [1, 6, 8]))]
         add("robust-exact-core", {"k": k, "atnums": atn, "degree": _pick(rng, [6, 8, 10]) if not mol else 10, "split2": bool(k % 2), "mol": mol}, 2.0 if mol else 0.8)
-    for k in range(4 if q else 20):
+    for k in range(4 if q else 48):
         mol = (k % 4 == 3)
         atn = [zs[int(rng.integers(0, 4))]] if not mol else [1, 1]
         add("robust-smooth", {"k": k, "atnums": atn, "degree": _pick(rng, [8, 10]) if not mol else 14, "mol": mol}, 8.0 if mol else 2.5)
